@@ -15,6 +15,7 @@ from ..workloads import markers as MW
 from ._marker_common import run_trees
 
 PROP = "C15"
+ANCHORS = ['dep_logic.markers.multi:MultiMarker.of', 'dep_logic.markers.union:MarkerUnion.of', 'dep_logic.markers.multi:MultiMarker.union_simplify', 'dep_logic.markers.union:MarkerUnion.intersect_simplify', 'dep_logic.utils:union', 'dep_logic.utils:intersection', 'dep_logic.utils:cnf', 'dep_logic.utils:dnf', 'dep_logic.markers.multi:MultiMarker.exclude', 'dep_logic.markers.union:MarkerUnion.exclude', 'dep_logic.markers.single:EqualityMarkerUnion.replace', 'dep_logic.markers.single:InequalityMultiMarker.replace']
 RULE = ("Operation trees over the well-defined atoms: parse, &, | (operands incl. EmptyMarker/AnyMarker, earlier "
         "results and re-parsed renderings), only/exclude/without_extras; small-scope strata: all string-atom triples "
         "on one variable, all python_version/python_full_version atom pairs, all extra triples, all 4-tuples of a "
